@@ -41,9 +41,9 @@ func checkC19(c *Ctx) {
 // ---- R1 ----
 
 type c19part struct {
-	op     string // equals, lt, gt, ltgt
-	v, v2  int    // ranks
-	isErr  bool
+	op    string // equals, lt, gt, ltgt
+	v, v2 int    // ranks
+	isErr bool
 }
 
 func c19denote(pt c19part, x2 int) bool {
